@@ -1977,12 +1977,28 @@ def _r4_disjoint(ctx: RuleCtx, mod: Module) -> None:
         return (attr_chain(e) or '').endswith('.modified_nodes')
     handled = _containment_filter(ctx, mod)
     n_pairs = 0
+    # a record extracted into a procedure that the normal form does not inline (early return): its call statements are the recording statements
+    rec_helpers: T.Dict[str, T.Tuple[ast.FunctionDef, str, bool]] = {}
+    for qn, f in mod.funcs().items():
+        if isinstance(f, ast.FunctionDef) and 'modified_nodes' in norm(f):
+            params = [a.arg for a in f.args.args if a.arg not in ('self', 'cls')]
+            for st, elts in _list_writers(f, is_list):
+                if mod.enclosing_func(st) == qn and len(elts) == 1 and isinstance(elts[0], ast.Name) and elts[0].id in params:
+                    rec_helpers[f.name] = (f, elts[0].id, '.' in qn)
     for qn in list(mod.funcs()):
         fn0 = mod.funcs()[qn]
-        if not isinstance(fn0, ast.FunctionDef) or 'modified_nodes' not in norm(fn0):
+        if not isinstance(fn0, ast.FunctionDef) or not ('modified_nodes' in norm(fn0) or any(h in norm(fn0) for h in rec_helpers)):
             continue
         fn = nf_func(mod, qn)
         ws = [(st, elts[0].id) for st, elts in _list_writers(fn, is_list) if mod.enclosing_func(st) == qn and len(elts) == 1 and isinstance(elts[0], ast.Name)]
+        for st in ast.walk(fn):
+            if isinstance(st, ast.Expr) and isinstance(st.value, ast.Call) and (attr_chain(st.value.func) or '').split('.')[-1] in rec_helpers \
+                    and mod.enclosing_func(st) == qn:
+                h, pv, is_m = rec_helpers[(attr_chain(st.value.func) or '').split('.')[-1]]
+                arg = bind_args(st.value, h, is_m).get(pv)
+                if not isinstance(arg, ast.Name):
+                    raise Undecided(f'{qn}: `{short(st)}` records {short(arg) if arg is not None else "?"}')
+                ws.append((st, arg.id))
         if not ws:
             continue
         cfg = CFG(fn)
